@@ -68,6 +68,19 @@ def wmom(chk, repo):
                     sd = sp.sqrt(SUM(w * (x - mean) ** 2) / SUM(w))
                     eq, d = symx.equal(r[2], sd)
                     chk.ob("R18.wmom", tag + "::deviation", eq, fi.where(), "weighted deviation is sqrt(sum w (x-m)^2 / sum w) (found %s)" % r[2])
+    # replication of element 0 of a statistic (used when 1-d weights give one error for d columns) must be guarded by a length test:
+    # unguarded, per-column values are overwritten by column 0's
+    cfg0 = cfg_of(fi)
+    view0 = cfg0.view()
+    for n in cfg0.nodes:
+        a = n.ast
+        if n.kind == "stmt" and isinstance(a, ast.Assign) and len(a.targets) == 1 and isinstance(a.targets[0], ast.Name):
+            t = a.targets[0].id
+            if any(isinstance(x_, ast.Subscript) and norm(x_.value) == t and norm(x_.slice) == "0" for x_ in ast.walk(a.value)):
+                guards = [tt for tt, lab in rules.controlling_tests(view0, n) if lab == "T"]
+                okg = any(("len(%s) <" % t) in g.replace("  ", " ") or ("%s.size <" % t) in g for g in guards)
+                chk.ob("R18.wmom", "wmom::replication-of-%s[0]-guarded-by-length" % t, okg, fi.where(a),
+                       "`%s` is rebuilt from its own element 0 only when it has fewer entries than there are columns (guards: %s)" % (t, guards))
     # reductions run over axis 0 (N-by-d inputs) and 1-d weights are broadcast over columns
     sums = [x_ for x_ in walk_no_nested(fi.node) if isinstance(x_, ast.Call) and call_name(x_) == "sum"]
     ok = len(sums) >= 4 and all(kwarg(c, "axis") is not None and norm(kwarg(c, "axis")) == "0" for c in sums)
@@ -131,8 +144,22 @@ def covcor(chk, repo):
             env.vars[fi.params[1]] = E
         env.vars[norm(loops[0].target)] = i
         env.vars[norm(loops[1].target)] = j
-        out = [a for a in walk_no_nested(fi.node) if isinstance(a, ast.Assign) and isinstance(a.value, ast.Call) and call_name(a.value) == "zeros"]
+        out = [a for a in walk_no_nested(fi.node) if isinstance(a, ast.Assign) and isinstance(a.value, ast.Call)
+               and call_name(a.value) in ("zeros", "empty", "ones", "zeros_like", "empty_like", "ones_like", "full", "full_like")]
         outn = norm(out[0].targets[0]) if out else "out"
+        okal = False
+        if len(out) == 1:
+            c = out[0].value
+            dt = kwarg(c, "dtype") if kwarg(c, "dtype") is not None else (c.args[1] if len(c.args) > 1 and not call_name(c).endswith("_like") else None)
+            dts = norm(dt).strip("'\"") if dt is not None else None
+            floaty = dts in ("f8", "float64", "float", "np.float64", "numpy.float64", "d")
+            if call_name(c).endswith("_like"):
+                okal = floaty
+            else:
+                okal = (dt is None or floaty) and ".shape" in norm(c.args[0])
+        chk.ob("R18.cov", fi.name + "::result-is-float64-of-input-shape", okal, fi.where(out[0]) if out else fi.where(),
+               "the result matrix is allocated as float64 with the input's shape, never with the input's dtype (an integer covariance would truncate every "
+               "correlation to 0): `%s`" % (norm(out[0].value) if out else "no allocation found"))
         env.vars[outn] = sp.Symbol("OUT")
         body0 = [s for s in loops[0].body if s is not loops[1]]
         env.exec_body([s for s in body0 if not isinstance(s, ast.If)], sp.true)
